@@ -40,6 +40,10 @@ inductive MEv
   | dispatch             -- the handler is called                                  ← monitor point
   | parse (nfiles : Nat) -- handler: MultipartForm() parses on demand (no-op when a form is already there)
   | parseErr             -- handler: MultipartForm() fails (ReadForm removed what it had created)
+  | parseTooLarge (nfiles : Nat)
+                         -- handler: MultipartFormWithLimit(n) on a streamed body: ReadForm SUCCEEDED (creating `nfiles`
+                         -- temp files) but the limit reader is exhausted: fasthttp itself must remove them before
+                         -- returning ErrBodyTooLarge (no-op returning the form when one is already there)
   | removeFiles          -- handler: RemoveMultipartFormFiles()
   | resetBody            -- handler: Request.ResetBody() / SetBody* (also removes the files)
   | timeout              -- handler: ctx.TimeoutError*()
@@ -70,6 +74,14 @@ def mstep (s : MSt) : MEv → Option MSt
     else if s.phase = .handlerTO then some { s with files := s.files ++ List.replicate n s.reqNum }
     else none
   | .parseErr => if s.phase = .handler ∨ s.phase = .handlerTO then some s else none
+  | .parseTooLarge n =>
+    if s.phase = .handler then
+      if s.form then some s
+      else
+        -- req.multipartForm, err = mr.ReadForm(…); if lr.N <= 0 { req.RemoveMultipartFormFiles(); return ErrBodyTooLarge }
+        some (removeLive { s with form := true, files := s.files ++ List.replicate n s.reqNum })
+    else if s.phase = .handlerTO then some s
+    else none
   | .removeFiles | .resetBody =>
     if s.phase = .handler then some (removeLive s)
     else if s.phase = .handlerTO then some { s with files := s.files.filter (· ≠ s.reqNum) }
